@@ -43,14 +43,19 @@ def main():
     try:
         demo = os.path.join(src, "demo.rs")
         has_demo = os.path.exists(demo)
+        crate = "rustbus"
+        try:
+            crate = json.load(open(os.path.join(src, "meta.json"))).get("demo_crate", "rustbus")
+        except Exception:
+            pass
         if has_demo:
-            os.makedirs(os.path.join(wt, "rustbus", "tests"), exist_ok=True)
-            shutil.copy(demo, os.path.join(wt, "rustbus", "tests", "demo.rs"))
-            rc, out = sh("cargo test --offline -p rustbus --test demo 2>&1 | tail -15", cwd=wt)
+            os.makedirs(os.path.join(wt, crate, "tests"), exist_ok=True)
+            shutil.copy(demo, os.path.join(wt, crate, "tests", "demo.rs"))
+            rc, out = sh("cargo test --offline -p %s --test demo 2>&1 | tail -15" % crate, cwd=wt)
             ok_before = "test result: ok" in out
             ran.append("demo on unchanged checkout: %s" % ("passes" if ok_before else "FAILS"))
             result["demo_passes_unchanged"] = ok_before
-            os.remove(os.path.join(wt, "rustbus", "tests", "demo.rs"))
+            os.remove(os.path.join(wt, crate, "tests", "demo.rs"))
         rc, out = sh("git apply %s" % os.path.join(src, "patch.diff"), cwd=wt)
         if rc != 0:
             print("patch does not apply:\n" + out)
@@ -62,12 +67,12 @@ def main():
         ran.append("cargo test --workspace --offline with the patch: %s" % ("all pass" if suite_ok else "FAILS: " + out[-300:]))
         result["suite_passes_with_patch"] = suite_ok
         if has_demo:
-            shutil.copy(demo, os.path.join(wt, "rustbus", "tests", "demo.rs"))
-            rc, out = sh("cargo test --offline -p rustbus --test demo 2>&1 | tail -15", cwd=wt)
+            shutil.copy(demo, os.path.join(wt, crate, "tests", "demo.rs"))
+            rc, out = sh("cargo test --offline -p %s --test demo 2>&1 | tail -15" % crate, cwd=wt)
             fails_after = "test result: FAILED" in out or "panicked" in out or "error" in out
             ran.append("demo with the patch: %s" % ("fails" if fails_after else "still passes"))
             result["demo_fails_with_patch"] = fails_after
-            os.remove(os.path.join(wt, "rustbus", "tests", "demo.rs"))
+            os.remove(os.path.join(wt, crate, "tests", "demo.rs"))
         evd = wt + "_ev"
         rc, out = sh("./check %s quick" % prop, cwd=VERIF, env={"VERIF_REPO": wt, "VERIF_EVIDENCE_DIR": evd}, timeout=3000)
         viol = [l for l in out.split("\n") if l.startswith("VIOLATION")]
